@@ -6,6 +6,7 @@ import (
 	"go/types"
 	"regexp"
 	"sort"
+	"strings"
 
 	"golang.org/x/tools/go/ssa"
 
@@ -284,6 +285,27 @@ func compensated(fn *ssa.Function, call ssa.CallInstruction, effs []Effect) bool
 			return false
 		}
 	}
+	// the undo touches nothing the step had not changed: a store on the error edge into cursor state that was not
+	// stored before the call (a decrement copied from the sibling method) moves the cursor instead of restoring it
+	posBefore := false
+	for k := range before {
+		if strings.Contains(k, posFieldName) {
+			posBefore = true
+		}
+	}
+	for _, b := range fn.Blocks {
+		for _, ins := range b.Instrs {
+			// also a position reached through a helper's result (`pe := c.top(); pe.linkIndex++`)
+			if st, ok := ins.(*ssa.Store); ok && strings.HasSuffix(ir.Sym(st.Addr), "."+posFieldName) && ir.InstrReaches(st, call) {
+				posBefore = true
+			}
+		}
+	}
+	for k := range undone {
+		if !before[k] && !posBefore && strings.Contains(k, posFieldName) {
+			return false
+		}
+	}
 	// the undo must restore the *old* state: every integer it uses (index, slice bound, stored number) is a
 	// constant, a snapshot taken before the first change, or the changed counter itself (x = x ∓ k)
 	var effStores []*ssa.Store
@@ -469,6 +491,36 @@ func compensated(fn *ssa.Function, call ssa.CallInstruction, effs []Effect) bool
 // step than the retry needs — whatever was popped since the function began has been pushed back (by an append to
 // the path) on every path to the fallible call.
 func navExceptionHolds(fn *ssa.Function, call ssa.CallInstruction) bool {
+	// "partial progress is kept and the retry resumes from it": so nothing moves the cursor on the call's error edge
+	// (a half-written undo there changes the position the retry starts from)
+	if cv, ok := call.(*ssa.Call); ok {
+		var errV ssa.Value = cv
+		if cv.Call.Signature().Results().Len() > 1 {
+			errV = nil
+			if cv.Referrers() != nil {
+				for _, r := range *cv.Referrers() {
+					if ex, ok := r.(*ssa.Extract); ok && ex.Index == ir.ErrorResultIndex(cv.Call.Signature()) {
+						errV = ex
+					}
+				}
+			}
+		}
+		if errV != nil {
+			for _, b := range fn.Blocks {
+				if !nilFactOn(b, errV, false) {
+					continue
+				}
+				for _, ins := range b.Instrs {
+					if st, ok := ins.(*ssa.Store); ok {
+						k := ir.Sym(st.Addr)
+						if strings.HasSuffix(k, "."+posFieldName) {
+							return false
+						}
+					}
+				}
+			}
+		}
+	}
 	var pops []ssa.Instruction
 	isPush := func(i ssa.Instruction) bool {
 		st, ok := i.(*ssa.Store)
